@@ -43,6 +43,8 @@ pub struct Gen {
     pub no_fill: bool,
     /// percentage of operations that get a random callback panic attached (C03: exits under unwinding)
     pub fault_pct: u64,
+    /// slot 0 hashes with a `Bands` plan: the bands recipe is then the macro of choice
+    pub bands_plan: bool,
     /// C13 churn mode: (bound on live size, removal order 0 random / 1 FIFO / 2 LIFO / 3 middle)
     pub churn: Option<(usize, u8)>,
     /// insertion order of live ids per slot (churn mode)
@@ -197,40 +199,119 @@ impl Gen {
             self.pending.push_back(Op::new(if self.family == Family::Table { Kd::TFindEntry } else { Kd::Remove }).s(s).a(id as i64).b(1));
         }
         for _ in 0..rng.range(1, 3) {
-            let k = self.universe + self.fresh_counter;
-            self.fresh_counter += 1;
-            let val = rng.below(1 << 20) as i64;
-            // the insertion that must rehash in place goes through every insertion path, not only insert()
-            let has = |kd: Kd| self.weights.iter().any(|w| w.0 == kd);
-            let ins = match self.family {
-                Family::Table => match rng.below(3) {
-                    0 if has(Kd::TEntry) => Op::new(Kd::TEntry).s(s).a(k as i64).b(val).c(*rng.pick(&[0i64, 1, 2, 3, 5])),
-                    _ => Op::new(Kd::TInsertUnique).s(s).a(k as i64).b(val),
-                },
-                Family::Set => match rng.below(5) {
-                    0 if has(Kd::Replace) => Op::new(Kd::Replace).s(s).a(k as i64),
-                    1 if has(Kd::GetOrInsert) => Op::new(Kd::GetOrInsert).s(s).a(k as i64),
-                    2 if has(Kd::GetOrInsertWith) => Op::new(Kd::GetOrInsertWith).s(s).a(k as i64),
-                    3 if has(Kd::Entry) => Op::new(Kd::Entry).s(s).a(k as i64).c(*rng.pick(&[0i64, 1, 3])),
-                    _ => Op::new(Kd::Insert).s(s).a(k as i64).b(val),
-                },
-                Family::Map => match rng.below(4) {
-                    0 if has(Kd::TryInsert) => Op::new(Kd::TryInsert).s(s).a(k as i64).b(val),
-                    1 | 2 if has(Kd::Entry) => {
-                        let api = rng.below(self.entry_apis.min(6).max(1) as u64) as i64;
-                        let chain: Vec<i64> = match rng.below(4) {
-                            0 => vec![api, 1],
-                            1 => vec![api, 2],
-                            2 => vec![api, 9, 22],
-                            _ => vec![api, 3],
-                        };
-                        Op::new(Kd::Entry).s(s).a(k as i64).b(val).v(chain)
-                    }
-                    _ => Op::new(Kd::Insert).s(s).a(k as i64).b(val),
-                },
-            };
-            self.pending.push_back(ins);
+            self.push_trigger(rng, s);
         }
+    }
+
+    /// Queues one insertion of a fresh key (id = universe + counter) through a random insertion path.
+    fn push_trigger(&mut self, rng: &mut Rng, s: usize) {
+        let k = self.universe + self.fresh_counter;
+        self.fresh_counter += 1;
+        let val = rng.below(1 << 20) as i64;
+        // the insertion that must rehash in place goes through every insertion path, not only insert()
+        let has = |kd: Kd| self.weights.iter().any(|w| w.0 == kd);
+        let ins = match self.family {
+            Family::Table => match rng.below(3) {
+                0 if has(Kd::TEntry) => Op::new(Kd::TEntry).s(s).a(k as i64).b(val).c(*rng.pick(&[0i64, 1, 2, 3, 5])),
+                _ => Op::new(Kd::TInsertUnique).s(s).a(k as i64).b(val),
+            },
+            Family::Set => match rng.below(5) {
+                0 if has(Kd::Replace) => Op::new(Kd::Replace).s(s).a(k as i64),
+                1 if has(Kd::GetOrInsert) => Op::new(Kd::GetOrInsert).s(s).a(k as i64),
+                2 if has(Kd::GetOrInsertWith) => Op::new(Kd::GetOrInsertWith).s(s).a(k as i64),
+                3 if has(Kd::Entry) => Op::new(Kd::Entry).s(s).a(k as i64).c(*rng.pick(&[0i64, 1, 3])),
+                _ => Op::new(Kd::Insert).s(s).a(k as i64).b(val),
+            },
+            Family::Map => match rng.below(4) {
+                0 if has(Kd::TryInsert) => Op::new(Kd::TryInsert).s(s).a(k as i64).b(val),
+                1 | 2 if has(Kd::Entry) => {
+                    let api = rng.below(self.entry_apis.min(6).max(1) as u64) as i64;
+                    let chain: Vec<i64> = match rng.below(4) {
+                        0 => vec![api, 1],
+                        1 => vec![api, 2],
+                        2 => vec![api, 9, 22],
+                        _ => vec![api, 3],
+                    };
+                    Op::new(Kd::Entry).s(s).a(k as i64).b(val).v(chain)
+                }
+                _ => Op::new(Kd::Insert).s(s).a(k as i64).b(val),
+            },
+        };
+        self.pending.push_back(ins);
+    }
+
+    /// Bands recipe: fill a fresh table band by band (ids band*1000+j share a home position under the
+    /// `Bands` plan, so bands overflow into each other's home groups), remove whole bands or halves of
+    /// them (tombstones around groups full of displaced live elements, growth_left exhausted), then
+    /// insert fresh keys of random bands through every insertion path.
+    fn macro_bands(&mut self, rng: &mut Rng, s: usize, width: usize) {
+        let table = self.family == Family::Table;
+        let ins = |id: i64, v: i64| if table { Op::new(Kd::TInsertUnique).s(s).a(id).b(v) } else { Op::new(Kd::Insert).s(s).a(id).b(v) };
+        let rem = |id: i64| if table { Op::new(Kd::TFindEntry).s(s).a(id).b(1) } else { Op::new(Kd::Remove).s(s).a(id).b(1) };
+        self.pending.push_back(Op::new(Kd::WithCapacity).s(s).a(0));
+        // the canonical displaced-full-group layout: bands of 2 and 1.5 groups fill a table of four groups to
+        // capacity, the never-used slots directly follow the second band; only that band is kept (displaced by
+        // a whole group); the fresh key belongs to the band after it, so its first probe group is full of
+        // displaced live elements and its insert slot is a never-used one (which makes the insertion reserve)
+        let canonical = rng.below(3) == 0;
+        let w = width.max(8);
+        let target = if canonical { 7 * w / 2 } else { *rng.pick(&[14usize, 28, 28, 56, 56, 112]) };
+        let nb = if canonical { 2 } else { rng.range(2, 5) as usize };
+        let mut bands: Vec<Vec<i64>> = Vec::new();
+        let mut total = 0usize;
+        // half of the time band sizes are one or one and a half groups, so that a band's overflow exactly
+        // fills the next band's home group with displaced elements
+        let grouped = canonical || rng.below(2) == 0;
+        for b in 0..nb {
+            let want = if canonical { [2 * w, 3 * w / 2][b] } else if grouped { *rng.pick(&[8usize, 16, 24, 24, 32]) } else { rng.range(6, 30) as usize };
+            let cnt = if b + 1 == nb { target.saturating_sub(total) } else { want.min(target.saturating_sub(total)) };
+            let ids: Vec<i64> = (0..cnt).map(|j| (b * 1000 + j) as i64).collect();
+            total += cnt;
+            bands.push(ids);
+        }
+        for b in &bands {
+            for &id in b {
+                self.pending.push_back(ins(id, rng.below(1 << 20) as i64));
+            }
+        }
+        let keep_one = if canonical { Some(1) } else if grouped { Some(rng.below(nb as u64) as usize) } else { None };
+        for (bi, b) in bands.iter().enumerate() {
+            let mode = match keep_one {
+                Some(k) => if bi == k { 0 } else { 1 },
+                None => rng.below(3),
+            };
+            match mode {
+                0 => {}
+                1 => {
+                    for &id in b {
+                        self.pending.push_back(rem(id));
+                    }
+                }
+                _ => {
+                    for &id in b {
+                        if rng.below(2) == 0 {
+                            self.pending.push_back(rem(id));
+                        }
+                    }
+                }
+            }
+        }
+        let save = self.universe;
+        for _ in 0..rng.range(1, 3) {
+            // reuse the insertion-path mix of the saturate macro with an id in a random band
+            self.fresh_counter += 1;
+            let band = match keep_one {
+                Some(k) if canonical || rng.below(2) == 0 => (k as u64 + 1) % (nb as u64 + 1),
+                _ => rng.below(nb as u64 + 1),
+            };
+            let id = (band * 1000 + 500 + self.fresh_counter as u64) as u32;
+            self.universe = id - self.fresh_counter;
+            let n0 = self.pending.len();
+            self.fresh_counter -= 0;
+            self.push_trigger(rng, s);
+            debug_assert!(self.pending.len() > n0);
+        }
+        self.universe = save;
     }
 
     /// Build a packed run of consecutive ids, then remove elements from its middle.
@@ -309,7 +390,8 @@ impl Gen {
         if self.macro_den > 0 && rng.below(self.macro_den) == 0 {
             let s = self.slot(rng);
             let sv = view.slots[s].clone();
-            match rng.below(4) {
+            match if self.bands_plan && rng.below(2) == 0 { 4 } else { rng.below(5) } {
+                4 => self.macro_bands(rng, s, sv.width),
                 0 if !self.no_fill => self.pending.push_back(Op::new(Kd::FillNoAlloc).s(s).a(rng.below(self.universe as u64) as i64)),
                 0 => self.macro_cluster(rng, s),
                 1 | 2 => self.macro_saturate(rng, s, &sv),
@@ -338,7 +420,7 @@ impl Gen {
                 let huge = self.huge_reserve && rng.below(3) == 0;
                 let (j1, j2) = (rng.range(-1, 1), rng.range(-2, 2));
                 op.a = if huge {
-                    *rng.pick(&[i64::MAX, -1i64, i64::MAX / 2, (u64::MAX / 16) as i64, (u64::MAX / 24) as i64 + j1, (u64::MAX / 8) as i64, 1 << 40, 1 << 33, (1i64 << 58) + j2])
+                    *rng.pick(&[i64::MAX, -1i64, i64::MAX / 2, (u64::MAX / 16) as i64, (u64::MAX / 24) as i64 + j1, (u64::MAX / 8) as i64, (u64::MAX / 8) as i64 - 1, 1 << 40, 1 << 33, (1i64 << 58) + j2, (1i64 << 59) + j2, (1i64 << 60) + j2, (1i64 << 61) + j2, (1i64 << 62) + j2, 1i64 << 60, 1i64 << 61])
                 } else {
                     boundary_amount(rng, sv.cap)
                 };
